@@ -89,6 +89,8 @@ def _events(text):
             elif isinstance(n, pt.Code):
                 if not n.ismodule:
                     sink.append({"k": "code", "off": off, "n": len(re.split(r"\r?\n", n.text)), "fn": fn})
+                else:       # module-level code: written before every function, one block at a time
+                    sink.append({"k": "modcode", "off": off, "n": len(re.split(r"\r?\n", n.text)), "fn": 0})
             elif isinstance(n, pt.IncludeTag):
                 sink.append({"k": "include", "off": off, "n": 0, "fn": fn})
             elif isinstance(n, pt.BlockTag):
@@ -197,6 +199,14 @@ def build_catalog(rng):
     # ---- a raise inside an ordinary Python module reached through <%namespace module=>: its frame is reported unchanged
     E.append(_rt("rt.nsmodule", '<%namespace name="pm@" module="' + PYMOD + '"/>\nx ' + N + F + "${pm@.boom()}", "raise", notoken=True,
                  pyframe=(PYMOD + ".py", 2, "boom")))
+    # ---- well-formed twins of the special constructs: a layout may hold 2-3 instances of the same kind (several <%! %>
+    # blocks, <% %> blocks, defs, namespaces, named blocks, control structures) with the planted one first, in the middle or last
+    for eid, text, ls in (("twin.modblock", "<%!\n   import os\n%>\n", False), ("twin.block", "<%\n   q = 1\n\n%>\n", False),
+                          ("twin.defcall", '<%def name="k@()">\nd\n</%def>${k@()}\n', False),
+                          ("twin.nsmod", '<%namespace name="q@" module="' + PYMOD + '"/>\n', False),
+                          ("twin.namedblock", '<%block name="nb@">\nx</%block>\n', False),
+                          ("twin.ctl", "% for x in [1]:\n${loop.index}\n% endfor\n", True), ("twin.text", "between\n", False)):
+        E.append(c11._entry(eid, text, "twin", ls=ls))
     # ---- filler whose EARLIER lines hold characters that other notions of "line" break on (str.splitlines, editors):
     # Mako counts lines by "\n" only, so none of them may shift what is displayed for a later line
     for name, ch in SUSPICIOUS:
@@ -494,6 +504,7 @@ def check(run):
 
     # ------------------------------------------------------------------ 1. TLC: expected frame lines (Lines.tla)
     inv = ["CatalogOK", "ReportAtFault", "CursorIsPrefixSum"]
+    lm_inv0 = ["EveryEmittedLineMapsHome", "PlantedLineEmitted"]
     res = run.tlc("MC_Lines", cfg_lines(good, raises + hops + warns, tails, maxpre, ["lf", "crlf"], inv), name="mc-frames",
                   workers=workers, coverage=True, extra_files=files, timeout=1500)
     if res.violated:
@@ -525,6 +536,20 @@ def check(run):
     if res.violated:
         run.spec_violation(res)
     n_sus += take(res, "brk")
+    # repeated instances of the same construct kind around the planted one (first / middle / last)
+    twins = c11.idx(E, "twin")
+    ttails = [i + 1 for i, e in enumerate(E) if e["id"] in ("twin.modblock", "twin.block", "twin.defcall", "twin.text")]
+    repf = [i + 1 for i, e in enumerate(E) if e["id"] in ("rt.block", "rt.defcall", "rt.ctl.for-loop", "rt.nsmodule", "rt.namedblock", "w.modblock", "w.modexec", "w.block")]
+    res = run.tlc("MC_Lines", cfg_lines(twins, repf, ttails, 2, ["lf"], inv), name="mc-repeated-kinds", workers=workers, extra_files=files)
+    if res.violated:
+        run.spec_violation(res)
+    n_rep = take(res, "rep")
+    if n_rep < 1000:
+        raise MachineryError("repeated-kinds instance exported only %d cases" % n_rep)
+    res = run.tlc("MC_LineMap", cfg_linemap(twins, repf, ttails, 2, 17, True, lm_inv0), name="mc-linemap-repeated", workers=workers,
+                  coverage=True, extra_files=files)
+    if res.violated:
+        run.spec_violation(res, "LineMap.tla: with several instances of one construct kind an emitted line maps away from its construct")
     # how paths are spelled (module_directory / template filename / lookup directories: absolute, relative to the cwd,
     # trailing slash, ./ and dir/../dir segments) is a dimension of the construction-path matrix
     wrep = [i + 1 for i, e in enumerate(E) if e["id"] in ("w.expr", "w.block", "w.modexec", "w.ctl.for-loop")]
@@ -616,7 +641,9 @@ def check(run):
         token = "(0*%d)" % c["fpos"]
         paths = ["plain"]
         key = (fe["id"], c["nl"])
-        is_sus = any(E[i - 1]["group"] == "sus" for i in c["seq"])
+        is_sus = any(E[i - 1]["group"] == "sus" for i in c["seq"]) or c["group"] == "rep"
+        if c["group"] == "rt" and key in seen_paths and hsh(ci, "pl") % 2:
+            continue        # (sampling the largest instance; every entry x terminator is rendered on all paths once, see below)
         if key not in seen_paths or hsh(ci) % stride == 0:
             seen_paths.add(key)
             paths += ["lookup-strings", "file", "lookup", "moddir"]
@@ -643,7 +670,7 @@ def check(run):
                             raise names["!fail"]
                         tl[0] = lk.get_template("/t.html")
                         return tl[0]
-            o = render_and_observe(get, stubs_of(c), want_templates=((p == "plain" and (is_sus or hsh(ci, p) % 6 == 0)) or (p != "plain" and hsh(ci, p) % 3 == 0)),
+            o = render_and_observe(get, stubs_of(c), want_templates=((p == "plain" and ((is_sus and c["group"] != "rep") or hsh(ci, p) % 6 == 0)) or (p != "plain" and hsh(ci, p) % 3 == 0)),
                                    plain_too=(hsh(ci, p) % 2 == 0))
             n_render += 1
             exp = [(fname, "/t.html", l) for l in c["frames"]]
@@ -831,7 +858,8 @@ def check(run):
     wstride = 5 if thorough else 29
     for ci, c in enumerate(warnc):
         fe = fe_of(c)
-        if hsh(ci, "w") % wstride and (fe["id"], c["nl"]) in seen_paths:
+        is_rep = c["group"] == "rep"
+        if not is_rep and hsh(ci, "w") % wstride and (fe["id"], c["nl"]) in seen_paths:
             continue
         seen_paths.add((fe["id"], c["nl"]))
         nl = "\n" if c["nl"] == "lf" else "\r\n"
@@ -840,7 +868,15 @@ def check(run):
         from mako.template import Template
         for action in ("always", "once", "error"):
             ex = wexp[(fe["f"]["site"], action)]
-            for p in ("string-uri", "file", "lookup", "moddir", "moddir-again"):
+            wpaths = ("string-uri", "file", "lookup", "moddir", "moddir-again")
+            if is_rep:      # every repeated-kinds case: "always" on a string; the other actions / paths on a hashed third
+                if action == "always":
+                    wpaths = ("string-uri",) + ((("file",), ("lookup",), ("moddir", "moddir-again"))[hsh(ci, "wr") % 3] if hsh(ci, "wq") % 3 == 0 else ())
+                elif hsh(ci, action) % 3 == 0:
+                    wpaths = ("string-uri",)
+                else:
+                    continue
+            for p in wpaths:
                 if p == "string-uri":
                     fname = "/w.html"
                     mk = lambda: Template(text, uri="/w.html")      # noqa
